@@ -1,23 +1,28 @@
 SPECIFICATION Spec
 CONSTANTS
+  Dim = 2
   MaxNodes = 3
   MinNodes = 2
-  Widths = {3}
+  Widths = {2}
   LinWidths = {2}
   Ks = {3}
   BNs = {FALSE}
-  C0 = 2
+  C0 = 3
   Sp0 = 4
   AllowRelu = TRUE
   AllowPool = FALSE
   AllowAdd = TRUE
   AllowDw = TRUE
+  AllowReuse = FALSE
   TupMode = "pc1"
   WType = "pc"
   SelMode = "rot"
+  MaxHist = 0
+  Walk = "fixed"
   Lin = "fixed"
-  GuardF40 = TRUE
+  GuardF40 = FALSE
   GuardF05 = TRUE
+  GuardReuse = TRUE
 INVARIANT InvRepIsRep
 INVARIANT InvPlumb
 INVARIANT InvPlumbGroups
@@ -25,4 +30,5 @@ INVARIANT InvAddSameGrid
 INVARIANT InvOutputFloat
 INVARIANT InvCostExact
 INVARIANT InvSpecKeys
+INVARIANT InvPerInvocation
 INVARIANT InvPruneLowers
